@@ -88,6 +88,8 @@ def cases(tier, seed):
         for rep in range(nrand):
             out.append({"kind": "random", "cls": "random:" + cls, "entry": cls, "maxd": maxd, "idx": idx, "seed": seed})
             idx += 1
+    for k, cls in enumerate(["gauss", "sparse", "int", "sparse_dense_pattern", "pure_imag"] * (2 if tier == "quick" else 8)):
+        out.append({"kind": "big", "cls": "big", "entry": cls, "idx": k, "seed": seed})
     for rep in range(24 if tier == "quick" else 400):
         out.append({"kind": "laws", "cls": "laws", "idx": rep, "maxd": 6 if tier == "quick" else 12, "seed": seed})
     for rep in range(4 if tier == "quick" else 16):
@@ -107,6 +109,8 @@ def run_case(spec, ctx, R):
         _basis(spec, ctx, R)
     elif k == "scalar_forms":
         _scalar_forms(spec, ctx, R)
+    elif k == "big":
+        _big(spec, ctx, R)
     elif k == "random":
         _random(spec, ctx, R)
     elif k == "laws":
@@ -221,6 +225,53 @@ def _t2_check(ctx, clause, site, C, A, B, tags=(), extra=None):
               detail={"ref": refkind, "max_dev": float(dev.max()) if dev.size else 0.0, **(extra or {})})
 
 
+def _all_paths(ctx, R, A, B, cls, shape, tags=()):
+    m, kk, n = shape
+    for p in PATHS:
+        if p == "dd_1d" and n != 1:
+            continue
+        try:
+            C = product(R, p, A, B)
+        except Exception as e:
+            ctx.check("product_T2", False, site=p, tags=list(tags), detail={"exception": repr(e), "shape": [m, kk, n], "class": cls})
+            continue
+        _t2_check(ctx, "product_T2", p, C, A, B, extra={"class": cls, "shape": [m, kk, n]})
+
+
+# sizes beyond every plausible blocking / fast-path threshold (more than 16 / 32 / 64 rows, more than 1024 entries in an operand, more
+# than 1000 stored entries, inner dimension above a block size), for every storage path
+BIG_SHAPES = [(40, 30, 25), (1, 1500, 3), (64, 64, 8), (33, 17, 20), (17, 33, 1), (70, 3, 70), (3, 70, 3), (129, 9, 5), (20, 65, 2), (9, 9, 130)]
+
+
+def _big(spec, ctx, R):
+    rng = gen.rng_for(spec["seed"], "c01big", spec["idx"])
+    m, kk, n = BIG_SHAPES[spec["idx"] % len(BIG_SHAPES)]
+    cls = spec["entry"]
+    if cls == "sparse_dense_pattern":        # density 80 %: "sparse" storage that is nearly full
+        A = gen.entries(rng, "gauss", m, kk) * (rng.random((m, kk)) < 0.8)
+        B = gen.entries(rng, "gauss", kk, n) * (rng.random((kk, n)) < 0.8)
+    else:
+        A = gen.entries(rng, cls, m, kk)
+        B = gen.entries(rng, cls if rng.random() < 0.5 else "gauss", kk, n)
+    ctx.distinct(A, B)
+    ctx.hit("size:big_operands")
+    _all_paths(ctx, R, A, B, cls, (m, kk, n))
+    # norm / conjugate-transpose laws on the same operands in both storage formats
+    U = R.utils
+    for X, nm in ((A, "A"), (B, "B")):
+        ref = refq.fro(X)
+        for fmt in ("dense", "sparse"):
+            Y = X if fmt == "dense" else R.sparse_from_dense(X)
+            try:
+                v = float(U.quat_frobenius_norm(Y))
+                h = float(U.quat_frobenius_norm(U.quat_hermitian(Y)))
+            except Exception as e:
+                ctx.check("fro_formats", False, site=fmt + ":big", detail={"exception": repr(e)})
+                continue
+            ctx.check("fro_formats", abs(v - ref), 64 * refq.EPS * max(ref, 1e-300) * math.sqrt(X.size), site=fmt + ":big", detail={"shape": list(X.shape)})
+            ctx.check("fro_herm", abs(h - ref), 64 * refq.EPS * max(ref, 1e-300) * math.sqrt(X.size), site=fmt + ":big", detail={"shape": list(X.shape)})
+
+
 def _random(spec, ctx, R):
     rng = gen.rng_for(spec["seed"], "c01rand", spec["idx"])
     maxd = spec["maxd"]
@@ -240,15 +291,7 @@ def _random(spec, ctx, R):
         ctx.distinct(A, B, nontrivial=(cls != "zeros"))
         if rep == 0 and spec["idx"] % 3 == 0:
             ctx.sample({"class": cls, "shape": [m, kk, n], "A": A, "B": B})
-        for p in PATHS:
-            if p == "dd_1d" and n != 1:
-                continue
-            try:
-                C = product(R, p, A, B)
-            except Exception as e:
-                ctx.check("product_T2", False, site=p, detail={"exception": repr(e), "shape": [m, kk, n], "class": cls})
-                continue
-            _t2_check(ctx, "product_T2", p, C, A, B, extra={"class": cls, "shape": [m, kk, n]})
+        _all_paths(ctx, R, A, B, cls, (m, kk, n))
 
 
 def _fro_exact(A):
